@@ -94,6 +94,79 @@ fn u_map_key_char_goes_through_escaper() {
     core::mem::forget(out);
 }
 
+/// C08 U-int-widths: every integer width handed to the serializer reaches the digit generator
+/// (itoa, cut to a recorder) as the same value of the same width, and exactly the text itoa
+/// returns reaches the writer - as a value, and between quotes as a map key.
+static mut IT_CALLS: u8 = 0;
+static mut IT_SIZE: usize = 0;
+static mut IT_BITS: u128 = 0;
+fn itoa_format_rec<I: itoa::Integer>(_b: &mut itoa::Buffer, i: I) -> &str {
+    unsafe {
+        IT_CALLS += 1;
+        IT_SIZE = core::mem::size_of::<I>();
+        let mut raw = [0u8; 16];
+        core::ptr::copy_nonoverlapping(&i as *const I as *const u8, raw.as_mut_ptr(), core::mem::size_of::<I>());
+        IT_BITS = u128::from_le_bytes(raw);
+    }
+    "7"
+}
+
+#[kani::proof]
+#[kani::unwind(18)]
+#[kani::stub(itoa::Buffer::format, itoa_format_rec)]
+fn u_int_widths_reach_itoa() {
+    let which: u8 = kani::any();
+    kani::assume(which < 10);
+    let key: bool = kani::any();
+    let v: u128 = kani::any();
+    let mut out: Vec<u8> = Vec::with_capacity(16);
+    let (size, bits): (usize, u128);
+    {
+        let mut ser = Serializer::new(&mut out);
+        macro_rules! go {
+            ($m:ident, $t:ty) => {{
+                let x = v as $t;
+                let r = if key { MapKeySerializer { ser: &mut ser }.$m(x) } else { (&mut ser).$m(x) };
+                assert!(r.is_ok());
+                core::mem::forget(r);
+                let mut raw = [0u8; 16];
+                let le = x.to_le_bytes();
+                let mut i = 0;
+                while i < le.len() {
+                    raw[i] = le[i];
+                    i += 1;
+                }
+                (core::mem::size_of::<$t>(), u128::from_le_bytes(raw))
+            }};
+        }
+        (size, bits) = match which {
+            0 => go!(serialize_i8, i8),
+            1 => go!(serialize_i16, i16),
+            2 => go!(serialize_i32, i32),
+            3 => go!(serialize_i64, i64),
+            4 => go!(serialize_i128, i128),
+            5 => go!(serialize_u8, u8),
+            6 => go!(serialize_u16, u16),
+            7 => go!(serialize_u32, u32),
+            8 => go!(serialize_u64, u64),
+            _ => go!(serialize_u128, u128),
+        };
+    }
+    unsafe {
+        assert!(IT_CALLS == 1);
+        assert!(IT_SIZE == size);
+        assert!(IT_BITS == bits);
+    }
+    if key {
+        assert!(out.len() == 3 && out[0] == b'"' && out[1] == b'7' && out[2] == b'"');
+    } else {
+        assert!(out.len() == 1 && out[0] == b'7');
+    }
+    kani::cover!(which == 4 && !key);
+    kani::cover!(which == 9 && key);
+    core::mem::forget(out);
+}
+
 /// A fixed small shape with symbolic leaves: [b0, [b1], [], {"k": b2, "": null}, {}]
 struct Shape {
     b: [bool; 3],
